@@ -33,6 +33,19 @@ theorem verify_lossless {s c r : Cfg} (h : verify s c = .ok r) {p : List String}
   obtain ⟨sk, ck, rfl, rfl, _, rfl, _⟩ := verify_ok h
   exact merge_lossless_aux p _ _ v hp
 
+/-- `verify_lossless` at path length 1: the **top-level** leaves of the caller's configuration —
+`name`, `description`, `sleap_nn_version`, `filename` — survive too; normalisation may only *add*
+a top-level field the caller left out, never overwrite one (a `training_config.yaml` written by
+another release keeps its `sleap_nn_version`). -/
+theorem verify_lossless_top_level {s r : Cfg} {ck : Kvs} (h : verify s (.node ck) = .ok r)
+    {k : String} {v : Value} (hk : lookup k ck = some (.leaf v)) : getPath [k] r = some (.leaf v) :=
+  verify_lossless h (p := [k]) (by rw [getPath_single]; exact hk)
+
+example : verify (.node [("data_config", .node [("p", cstr "???")]), ("sleap_nn_version", cstr "0.0.1")])
+    (.node [("data_config", .node [("p", cstr "x")]), ("sleap_nn_version", cstr "0.0.0-other")])
+    = .ok (.node [("data_config", .node [("p", cstr "x")]), ("sleap_nn_version", cstr "0.0.0-other")]) := by
+  simp [verify, hasKey, lookup, topFill, merge, mergeKvs, hasMissing, hasMissingKvs, cstr]
+
 /-- normalisation is idempotent: the normal form is a fixed point -/
 theorem verify_idempotent {s c r : Cfg} (hs : wf s = true) (hc : wf c = true)
     (h : verify s c = .ok r) : verify s r = .ok r := by
